@@ -16,15 +16,12 @@ import (
 	"fmt"
 	"math/rand"
 	"os"
-	"path/filepath"
 	"regexp"
 	"regexp/syntax"
 	"sort"
 	"strconv"
 	"strings"
 	"unicode"
-
-	"verif/harness/internal/hutil"
 
 	"github.com/quasilyte/go-ruleguard/ruleguard"
 	"github.com/quasilyte/go-ruleguard/ruleguard/textmatch"
@@ -87,11 +84,7 @@ func coqRegex(re *syntax.Regexp) (string, bool) {
 		}
 		return "(Literal " + fold + " " + coqRunes(re.Rune) + ")", true
 	case syntax.OpCharClass:
-		parts := make([]string, 0, len(re.Rune)/2)
-		for i := 0; i+1 < len(re.Rune); i += 2 {
-			parts = append(parts, fmt.Sprintf("(%d,%d)", re.Rune[i], re.Rune[i+1]))
-		}
-		return "(CharClass [" + strings.Join(parts, ";") + "])", true
+		return "(CharClass " + coqClass(re) + ")", true
 	case syntax.OpAnyCharNotNL:
 		return "AnyCharNotNL", true
 	case syntax.OpAnyChar:
@@ -202,6 +195,9 @@ func inputsFor(re *syntax.Regexp, rng *rand.Rand) [][]byte {
 			add(l[:1] + "\xff" + l[1:])
 		}
 		add(l + l)
+	}
+	if re != nil && hasClass(re) {
+		classInputs(re, rng, add)
 	}
 	frags := []string{"foo", "FOO", "f", "o", "\n", "\xff", "ø", "x", " ", "\xc3", "K", "K", "bar", "\xef\xbf\xbd", "A", "a"}
 	frags = append(frags, lits...)
@@ -414,299 +410,6 @@ func observe(i int, pat string, rng *rand.Rand, withInputs bool) patObs {
 	return o
 }
 
-type unicodeObs struct {
-	K        string `json:"k"`
-	UpperAst string `json:"upper_ast"`
-	LowerAst string `json:"lower_ast"`
-	UpperBad []int  `json:"upper_bad"`
-	LowerBad []int  `json:"lower_bad"`
-	Runes    int    `json:"runes"`
-	ErrorUp  bool   `json:"error_upper"`
-	ErrorLow bool   `json:"error_lower"`
-}
-
-func classHas(re *syntax.Regexp, r rune) bool {
-	for i := 0; i+1 < len(re.Rune); i += 2 {
-		if re.Rune[i] <= r && r <= re.Rune[i+1] {
-			return true
-		}
-	}
-	return false
-}
-
-func unicodeCheck() unicodeObs {
-	o := unicodeObs{K: "unicode"}
-	up, _ := syntax.Parse(`^\p{Lu}`, syntax.Perl)
-	lo, _ := syntax.Parse(`^\p{Ll}`, syntax.Perl)
-	o.UpperAst, _ = coqRegex(up)
-	o.LowerAst, _ = coqRegex(lo)
-	okShape := func(re *syntax.Regexp) bool {
-		return re.Op == syntax.OpConcat && len(re.Sub) == 2 && re.Sub[0].Op == syntax.OpBeginText && re.Sub[1].Op == syntax.OpCharClass
-	}
-	if !okShape(up) || !okShape(lo) {
-		o.UpperBad, o.LowerBad = []int{-1}, []int{-1}
-		return o
-	}
-	for r := rune(0); r <= unicode.MaxRune+16; r++ {
-		o.Runes++
-		if unicode.IsUpper(r) != classHas(up.Sub[1], r) && len(o.UpperBad) < 10 {
-			o.UpperBad = append(o.UpperBad, int(r))
-		}
-		if unicode.IsLower(r) != classHas(lo.Sub[1], r) && len(o.LowerBad) < 10 {
-			o.LowerBad = append(o.LowerBad, int(r))
-		}
-	}
-	o.ErrorUp, o.ErrorLow = unicode.IsUpper(0xFFFD), unicode.IsLower(0xFFFD)
-	return o
-}
-
-// ---- engine level
-
-type engineObs struct {
-	K       string `json:"k"`
-	Pred    string `json:"pred"` // text | name | pkgpath
-	Neg     bool   `json:"neg"`
-	Pat     []byte `json:"pat"`
-	Input   []byte `json:"input"`
-	Got     bool   `json:"got"`  // a report was produced
-	Want    bool   `json:"want"` // regexp's verdict on the same text
-	LoadErr string `json:"load_err,omitempty"`
-	Panic   string `json:"panic,omitempty"`
-}
-
-func engineLevel(enc *json.Encoder, tmp string, rng *rand.Rand, npat int) {
-	all := systematicPatterns()
-	var pats []string
-	for _, p := range []string{`foo`, `.*foo.*`, `^"foo`, `foo"$`, `^"foo"$`, `(?i)foo`, `^"[Ff]`, `\x{FFFD}`, `^"\p{Lu}`, `o{2}`, `^$`, `ø`, `\\n`} {
-		pats = append(pats, p)
-	}
-	for len(pats) < npat {
-		p := all[rng.Intn(len(all))]
-		if _, err := regexp.Compile(p); err != nil || p == "" {
-			continue
-		}
-		pats = append(pats, p)
-	}
-	texts := []string{"", "foo", "FOO", "Foo", "xfoo", "foox", "fo", "føö", "bar", "foo bar", "Upper", "lower", "ünï", "a\nb", "�", "K", "K", "😀foo", "1"}
-	rawTexts := []string{"`foo\nbar`", "`x\nfoo`"}
-	fileNames := []string{"foo.go", "foo_test.go", "Upper.go", "x/føö.go", "lower_foo.go"}
-	pkgPaths := []string{"example.com/foo", "foo", "Foo/bar", "x/føö"}
-
-	// every group matches calls of its own function p<gi>(...): within one node the first accepting rule wins,
-	// so groups must not compete for a node
-	var rb strings.Builder
-	rb.WriteString("package gorules\n\nimport \"github.com/quasilyte/go-ruleguard/dsl\"\n\n")
-	type grp struct {
-		pred string
-		neg  bool
-		pat  string
-	}
-	var groups []grp
-	addGroup := func(pred string, neg bool, pat string) {
-		bang := ""
-		if neg {
-			bang = "!"
-		}
-		gi := len(groups)
-		q := strconv.Quote(pat)
-		var cond string
-		switch pred {
-		case "text":
-			cond = fmt.Sprintf("%sm[\"x\"].Text.Matches(%s)", bang, q)
-		case "name":
-			cond = fmt.Sprintf("%sm.File().Name.Matches(%s)", bang, q)
-		case "pkgpath":
-			cond = fmt.Sprintf("%sm.File().PkgPath.Matches(%s)", bang, q)
-		case "whole":
-			cond = fmt.Sprintf("%sm[\"$$\"].Text.Matches(%s)", bang, q)
-		case "list":
-			cond = fmt.Sprintf("%sm[\"xs\"].Text.Matches(%s)", bang, q)
-		case "cgroup-g":
-			cond = fmt.Sprintf("%sm[\"g\"].Text.Matches(%s)", bang, q)
-		case "cgroup-opt":
-			cond = fmt.Sprintf("%sm[\"opt\"].Text.Matches(%s)", bang, q)
-		}
-		switch pred {
-		case "list":
-			// the text of a $*xs capture: the source from the first to the last argument, empty when it matched nothing
-			fmt.Fprintf(&rb, "func g%d(m dsl.Matcher) {\n\tm.Match(`p%d($*xs)`).Where(%s).Report(`hit`)\n}\n", gi, gi, cond)
-		case "cgroup-g", "cgroup-opt":
-			// a comment group that captured the empty string (g) or did not participate at all (opt) has the empty text
-			fmt.Fprintf(&rb, "func g%d(m dsl.Matcher) {\n\tm.MatchComment(`cg%d:(?P<g>\\w*)(?P<opt>-opt)?`).Where(%s).Report(`hit`)\n}\n", gi, gi, cond)
-		default:
-			fmt.Fprintf(&rb, "func g%d(m dsl.Matcher) {\n\tm.Match(`p%d($x)`).Where(%s).Report(`hit`)\n}\n", gi, gi, cond)
-		}
-		groups = append(groups, grp{pred, neg, pat})
-	}
-	// patterns that tell a base name from a path, an anchored from a floating match, and a package path from a name
-	filePats := []string{`^foo`, `^foo\.go$`, `^[^/]*$`, `/`, `_test\.go$`, `^Upper`, `^\p{Lu}`, `^lower_`, `^x/`, `^example\.com/foo$`, `^foo$`,
-		`(?i)^FOO`, `ø`, `^f.*\.go$`, `^t[0-9]`, `tmp`, `^/`, `\.go$`, `^Foo/bar$`, `^(foo|Foo)`}
-	for i, p := range pats {
-		for _, neg := range []bool{false, true} {
-			addGroup("text", neg, p)
-			if i%3 == 0 {
-				addGroup("name", neg, p)
-				addGroup("pkgpath", neg, p)
-			}
-		}
-	}
-	for _, p := range filePats {
-		pats = append(pats, p)
-		for _, neg := range []bool{false, true} {
-			addGroup("name", neg, p)
-			addGroup("pkgpath", neg, p)
-		}
-	}
-	// patterns that match the empty string (and some that do not) against texts that can be empty
-	emptyPats := []string{`^$`, `^\s*$`, `x*`, `(?s)^.*$`, `^`, `$`, `a?`, `.*`, `^.+$`, `foo`, `^"a"`, `-opt`, `^abc$`, `.`, `^\w*$`, `\S`, `(?i)^$`, `^\z`}
-	for _, p := range emptyPats {
-		pats = append(pats, p)
-		for _, neg := range []bool{false, true} {
-			addGroup("list", neg, p)
-			addGroup("cgroup-g", neg, p)
-			addGroup("cgroup-opt", neg, p)
-			addGroup("text", neg, p)
-		}
-	}
-	// the whole match ($$) as the text
-	for _, p := range []string{`^p\d+\("foo"\)$`, `foo`, `^"`, `\)$`, `^$`, `(?i)FOO`, `^p`} {
-		pats = append(pats, p)
-		for _, neg := range []bool{false, true} {
-			addGroup("whole", neg, p)
-		}
-	}
-	var tb strings.Builder
-	tb.WriteString("package target\n\n")
-	tb.WriteString("var x int\n\n")
-	for gi, g := range groups {
-		switch g.pred {
-		case "list":
-			fmt.Fprintf(&tb, "func p%d(args ...interface{}) {}\n", gi)
-		case "cgroup-g", "cgroup-opt":
-		default:
-			fmt.Fprintf(&tb, "func p%d(string) {}\n", gi)
-		}
-	}
-	tb.WriteString("\nfunc f() {\n")
-	type site struct {
-		group int
-		pos   int
-		arg   string // the text the predicate must see
-	}
-	var sites []site
-	for gi, g := range groups {
-		switch g.pred {
-		case "list":
-			for _, a := range []string{``, `"a"`, `"a", "b"`, `x,  1`, `"foo"`, `" "`, "x,\n\t\tx"} {
-				tb.WriteString("\t")
-				sites = append(sites, site{group: gi, pos: tb.Len(), arg: a})
-				fmt.Fprintf(&tb, "p%d(%s)\n", gi, a)
-			}
-			continue
-		case "cgroup-g", "cgroup-opt":
-			for _, c := range [][3]string{{"", "", ""}, {"abc", "abc", ""}, {"abc-opt", "abc", "-opt"}, {"-opt", "", "-opt"}, {"foo x", "foo", ""}} {
-				tb.WriteString("\t// ")
-				want := c[1]
-				if g.pred == "cgroup-opt" {
-					want = c[2]
-				}
-				sites = append(sites, site{group: gi, pos: tb.Len(), arg: want})
-				fmt.Fprintf(&tb, "cg%d:%s\n", gi, c[0])
-			}
-			continue
-		}
-		args := []string{`""`}
-		if g.pred == "whole" {
-			for _, a := range []string{`"foo"`, `"FOO"`, `""`, "`a\nfoo`"} {
-				tb.WriteString("\t")
-				sites = append(sites, site{group: gi, pos: tb.Len(), arg: fmt.Sprintf("p%d(%s)", gi, a)})
-				fmt.Fprintf(&tb, "p%d(%s)\n", gi, a)
-			}
-			continue
-		}
-		if g.pred == "text" {
-			args = nil
-			for _, t := range texts {
-				args = append(args, strconv.Quote(t))
-			}
-			args = append(args, rawTexts...)
-		}
-		for _, a := range args {
-			tb.WriteString("\t")
-			sites = append(sites, site{group: gi, pos: tb.Len(), arg: a})
-			fmt.Fprintf(&tb, "p%d(%s)\n", gi, a)
-		}
-	}
-	tb.WriteString("}\n")
-	res := map[string]*regexp.Regexp{}
-	for _, p := range pats {
-		res[p] = regexp.MustCompile(p)
-	}
-	for fi, fname := range fileNames {
-		pkgPath := pkgPaths[fi%len(pkgPaths)]
-		t, err := hutil.CheckTargetPkg(tmp, filepath.Join("t"+strconv.Itoa(fi), fname), []byte(tb.String()), pkgPath)
-		if err != nil {
-			fmt.Fprintln(os.Stderr, err)
-			os.Exit(3)
-		}
-		e, err := hutil.LoadEngine(t.Fset, map[string]string{"rules.go": rb.String()}, []string{"rules.go"})
-		if err != nil {
-			enc.Encode(engineObs{K: "engine", LoadErr: err.Error()})
-			return
-		}
-		reports, pmsg := hutil.Run(e, t, 0, "", nil)
-		if pmsg != "" {
-			enc.Encode(engineObs{K: "engine", Panic: pmsg})
-			return
-		}
-		got := map[[2]int]bool{} // (group, pos)
-		for _, r := range reports {
-			var gi int
-			fmt.Sscanf(r.Group, "g%d", &gi)
-			got[[2]int{gi, r.Pos}] = true
-		}
-		if fi > 0 {
-			// the node texts do not depend on the file name: only the File() predicates are re-observed
-			for _, s := range sites {
-				g := groups[s.group]
-				if g.pred != "name" && g.pred != "pkgpath" {
-					continue
-				}
-				in := filepath.Base(fname)
-				if g.pred == "pkgpath" {
-					in = pkgPath
-				}
-				want := res[g.pat].MatchString(in) != g.neg
-				enc.Encode(engineObs{K: "engine", Pred: g.pred, Neg: g.neg, Pat: []byte(g.pat), Input: []byte(in), Got: got[[2]int{s.group, s.pos}], Want: want})
-			}
-			continue
-		}
-		for _, s := range sites {
-			g := groups[s.group]
-			in := s.arg // the node text is the literal as written in the source
-			switch g.pred {
-			case "name":
-				in = filepath.Base(fname)
-			case "pkgpath":
-				in = pkgPath
-			}
-			want := res[g.pat].MatchString(in) != g.neg
-			enc.Encode(engineObs{K: "engine", Pred: g.pred, Neg: g.neg, Pat: []byte(g.pat), Input: []byte(in), Got: got[[2]int{s.group, s.pos}], Want: want})
-		}
-	}
-	// what Load rejects: an empty Text.Matches pattern and a pattern regexp rejects
-	for _, bad := range []string{``, `(`, `a{2,1}`} {
-		rules := "package gorules\n\nimport \"github.com/quasilyte/go-ruleguard/dsl\"\n\nfunc g(m dsl.Matcher) {\n\tm.Match(`probe($x)`).Where(m[\"x\"].Text.Matches(" + strconv.Quote(bad) + ")).Report(`hit`)\n}\n"
-		t, _ := hutil.CheckTargetPkg(tmp, "bad/t.go", []byte("package target\n"), "target")
-		_, err := hutil.LoadEngine(t.Fset, map[string]string{"rules.go": rules}, []string{"rules.go"})
-		o := engineObs{K: "engine-reject", Pat: []byte(bad), Got: err != nil, Want: true}
-		if err != nil {
-			o.LoadErr = err.Error()
-		}
-		enc.Encode(o)
-	}
-}
-
 // decodeObs: Go's own decoding (what regexp's input stepping sees: an invalid byte is U+FFFD and consumes one byte) and
 // string([]rune) encoding, to be compared with the Coq functions decode / encode
 type decodeObs struct {
@@ -766,28 +469,60 @@ func main() {
 	nengine := flag.Int("engine", 40, "patterns used at engine level")
 	nfold := flag.Int("fold", 12, "sampled runes per class (letters / non-letters) with case variants, put under (?i)")
 	tmp := flag.String("tmp", "", "scratch directory")
+	tableFlag := flag.String("table", "", "the table of prefix classes read off the source: JSON [[base64 pattern, unicode predicate], ...]")
+	allClasses := flag.Bool("allclasses", false, "every class spelling in every shape; sweep every ^class pattern over all runes")
 	flag.Parse()
 	rng := rand.New(rand.NewSource(*seed))
 	enc := json.NewEncoder(os.Stdout)
 	enc.SetEscapeHTML(false)
 
-	enc.Encode(unicodeCheck())
+	table, err := parseTableFlag(*tableFlag)
+	if err != nil {
+		fmt.Fprintln(os.Stderr, "c11: bad -table:", err)
+		os.Exit(3)
+	}
+	initPredSamples(rng)
+	enc.Encode(tableCheck(table))
 	enc.Encode(decodeCheck(rng, 1500))
 	pats := systematicPatterns()
+	for _, e := range table {
+		pats = append(pats, e[0])
+	}
+	cps := classPatterns(rng, *allClasses)
+	isClassPat := map[string]bool{}
+	for _, p := range cps {
+		isClassPat[p] = true
+	}
+	pats = append(pats, cps...)
 	pats = append(pats, foldPatterns(rng, *nfold)...)
 	for i := 0; i < *nrand; i++ {
 		pats = append(pats, randomPattern(rng, 3))
 	}
 	seen := map[string]bool{}
 	i := 0
+	var toSweep []string
 	for _, p := range pats {
 		if seen[p] {
 			continue
 		}
 		seen[p] = true
-		enc.Encode(observe(i, p, rng, true))
+		o := observe(i, p, rng, true)
+		enc.Encode(o)
+		// whatever textmatch answers with a rune predicate is compared with regexp on every rune
+		if o.Kind == "pred" || (*allClasses && isClassPat[p] && strings.HasPrefix(p, "^") && o.Kind != "regexp" && o.Kind != "") {
+			toSweep = append(toSweep, p)
+		}
 		i++
 	}
+	for _, p := range toSweep {
+		enc.Encode(sweep(p))
+	}
+	// classes named once
+	type classRec struct {
+		K    string            `json:"k"`
+		Defs map[string]string `json:"defs"`
+	}
+	enc.Encode(classRec{K: "classes", Defs: classDefs})
 	// orbits of the folded literal runes (emitted after the patterns that use them)
 	type foldRec struct {
 		K     string  `json:"k"`
